@@ -62,8 +62,31 @@ let tokens_of (input : n list) (max : int) : string =
   in
   go (new_lexer input) [] 0
 
+let show_entries (adds : smadd list) : string =
+  String.concat ";" (List.map (fun e -> Printf.sprintf "%d,%d,%d,%d" (int_of_z e.se_sl) (int_of_z e.se_sc) (int_of_z e.se_tl) (int_of_z e.se_tc)) (sm_entries adds))
+
+let show_err (e : perr option) : string =
+  match e with
+  | None -> "ok"
+  | Some (PosErr (l, c, m)) -> Printf.sprintf "pos:%d:%d:%s" (int_of_z l) (int_of_z c) (hex_of_bytes (perr_string (PosErr (l, c, m))))
+  | Some (PlainErr m) -> "plain:" ^ hex_of_bytes m
+
+let opt_err (e : bytes option) = match e with None -> "ok" | Some m -> "err:" ^ hex_of_bytes m
+
+(* compile <hex> : class|parse error|tree|compose text|compose err|source map entries|generate text|generate err *)
+let compile_of (input : n list) : string =
+  match compile_parse input with
+  | OPanic -> "panic" | OHang -> "hang" | ODeadlock -> "deadlock"
+  | ODone (t, e) ->
+    let ((ctext, adds), cerr) = compose t in
+    let (gtext, gerr) = generate t in
+    String.concat "|" [ "done"; show_err e; hex_of_bytes (tree_dump t O); hex_of_bytes ctext; opt_err cerr;
+                        show_entries adds; hex_of_bytes gtext; opt_err gerr ]
+
 let handle (line : string) : string =
   match String.split_on_char ' ' line with
+  | [ "compile"; h ] -> compile_of (bytes_of_hex h)
+  | [ "unquote"; h ] -> (match go_unquote (bytes_of_hex h) with None -> "err" | Some b -> "ok " ^ hex_of_bytes b)
   | [ "tokens"; h ] -> tokens_of (bytes_of_hex h) 100000
   | [ "quote"; h ] -> "ok " ^ hex_of_bytes (go_quote (bytes_of_hex h))
   | _ -> "unknown-op"
